@@ -183,6 +183,12 @@ impl ReplicaProp {
                 });
                 let obs = if kind == "tick" {
                     op["env"] = env;
+                    // "shutdown": the view timer fires while the node is shutting down (the handler's context is already
+                    // cancelled): whatever leaves the node must still be covered by a durable state
+                    if op["shutdown"].as_bool() == Some(true) {
+                        s.rig.cancel_next = true;
+                        out.count("tick_during_shutdown");
+                    }
                     rt.block_on(s.rig.step_tick(crash))
                 } else {
                     let from = op["from"].as_u64().unwrap() as usize;
@@ -834,7 +840,15 @@ impl ReplicaProp {
                             }
                         }
                     }
-                    _ if roll < 9 => json!({"op":"tick","crash":crash}),
+                    _ if roll < 9 => {
+                        if self.mode == Mode::Crash && crash.is_null() && g.rng.gen_bool(0.3) {
+                            // shutdown while the timer fires, then the process comes back
+                            pending.push_back(json!({"op":"restart"}));
+                            json!({"op":"tick","crash":crash,"shutdown":true})
+                        } else {
+                            json!({"op":"tick","crash":crash})
+                        }
+                    }
                     _ if roll < 10 => json!({"op":"prune"}),
                     _ if roll < 14 => json!({"op":"restart"}),
                     _ if roll < 34 => {
